@@ -8,7 +8,7 @@ from mc import syncmodel
 
 OPS = [("acq", None), ("acq", "td"), ("acq", "abs"), ("acq", "zero"), ("acq_ctx",), ("rel",), ("cancel", 0), ("cancel", 1),
        ("cancel", -1), ("adv",)]
-SPECS = [("sem", 0), ("sem", 1), ("sem", 2), ("bsem", 1), ("bsem", 2), ("lock",)]
+SPECS = [("sem", 0), ("sem", 1), ("sem", 2), ("bsem", 1), ("bsem", 2), ("lock",), ("bsem", 0)]
 
 
 def gc_history(kind, live_at=()):
@@ -71,7 +71,10 @@ class C33(Check):
                                      {"spec": sp, "hist": hist})
             return
         if i == "burst":
-            syncmodel.burst_family(spec, OPS, [("acq", None), ("rel",), ("acq", "zero")], 6 if tier == "quick" else 8, st)
+            # (no 'async with' task in front of a burst with cancellations: cancelling a task only takes effect when the loop runs)
+            syncmodel.burst_family(spec, [o for o in OPS if o[0] != "acq_ctx"],
+                                   [("acq", None), ("rel",), ("acq", "zero"), ("acq", "td"), ("cancel", 0), ("cancel", -1)],
+                                   5 if tier == "quick" else 7, st)
             return
         syncmodel.bfs(spec, OPS, [OPS[i]], self.depth(tier), st)
         st.setmax("depth", self.depth(tier))
